@@ -42,7 +42,9 @@ def job_polynomial(job):
         seen[c] = seen.get(c, 0) + 1
         if seen[c] <= 2:
             out['failures'].append(rec)
-    names = ['a', 'a1', 'a12', 'b', 'b2', 'c']
+    # names as code generation makes them (operand letter + blade digits); with hex-letter blade names they can be prefixes and
+    # concatenations of one another: a * aab and aa * ab are different monomials
+    names = ['a', 'a1', 'a12', 'b', 'b2', 'c', 'aa', 'ab', 'aab']
     distinct = set()
     for it in range(job.get('trees', 200)):
         # random expression tree; value tracked both as kingdon object and as exact (num, den) pair
